@@ -2,9 +2,10 @@
 pub assume_specification [char::is_ascii_whitespace] (_0: &char) -> bool;
 pub assume_specification [char::is_ascii_digit] (_0: &char) -> bool;
 pub uninterp spec fn contains_spec<P>(s: &str, p: P) -> bool;
+pub uninterp spec fn contains_seq<P>(s: Seq<char>, p: P) -> bool;      // the same, as a function of the character sequence
 #[verifier::allow(undeclared_external_trait)]
 pub assume_specification<P: std::str::pattern::Pattern> [str::contains] (_0: &str, _1: P) -> (r: bool)
-    ensures r == contains_spec(_0, _1);
+    ensures r == contains_spec(_0, _1), r == contains_seq(_0@, _1);
 pub assume_specification<'a, T: Copy> [std::option::Option::<&T>::copied] (_0: std::option::Option<&'a T>) -> (r: std::option::Option<T>)
     ensures r == match _0 { Some(x) => Some(*x), None => None };
 #[verifier::external_body]
@@ -31,3 +32,4 @@ pub uninterp spec fn str_trim_end(s: Seq<char>) -> Seq<char>;
 pub assume_specification [str::trim] (s: &str) -> (r: &str) ensures r@ == str_trim(s@), r@.len() <= s@.len();
 pub assume_specification [str::trim_start] (s: &str) -> (r: &str) ensures r@ == str_trim_start(s@), r@.len() <= s@.len();
 pub assume_specification [str::trim_end] (s: &str) -> (r: &str) ensures r@ == str_trim_end(s@), r@.len() <= s@.len();
+pub assume_specification [String::with_capacity] (_0: usize) -> (r: String) ensures r@ == Seq::<char>::empty();
